@@ -408,3 +408,22 @@ def closure_arg_is(m, root, c, closure_fn):
         if k == "rvalue" and p and p[0] == "agg" and p[1] == "closure" and p[2] == closure_fn.id:
             return True
     return False
+
+
+def drained_logged(ctx, rule):
+    """pages taken out of the dirty tracker are logged completely: no lossy iteration adaptor over the drained set"""
+    m = ctx.m
+    LOSSY = ("chunks_exact", "rchunks_exact", "array_chunks", "step_by")
+    n2 = 0
+    for f in sorted(m.fns.values(), key=lambda f: f.id):
+        if not any(c.name.endswith("ShardedDirtyTracker::drain_for_table") or c.name.endswith("ShardedDirtyTracker::drain_all") for c in f.calls):
+            continue
+        n2 += 1
+        group = [f] + list(all_closures(m, f))
+        lossy = [c for g in group for c in g.calls if c.name.rsplit("::", 1)[-1] in LOSSY]
+        rem = [c for g in group for c in g.calls if c.name.endswith("::remainder") or c.name.endswith("into_remainder")]
+        ok = not lossy or bool(rem)
+        ctx.ob(rule, f.id.rsplit("::", 1)[-1], ok, "drained pages are iterated completely" if ok else
+               "the drained dirty-page set is walked with %s and its remainder is never consumed: the trailing pages are removed from the "
+               "tracker but not logged" % lossy[0].name.rsplit("::", 1)[-1], (lossy or [f.calls[0]])[0].loc())
+    ctx.floor(rule + ".drain_sites", n2, 3)
